@@ -30,7 +30,46 @@ def discover_gates(F):
                                 errs = [a for a in find_aggs(b, r"core::result::Result$") if a[1][3] == "Err" and a[0] in b.reachable(s2)]
                                 if errs:
                                     gates.add(f[1:])
+    # comparison form: `if request.<f> && operation.ty == OperationType::Mutation { return Err(..) }`
+    from common import variant_reachable
+    for b in bodies:
+        errs = [a[0] for a in find_aggs(b, r"core::result::Result$") if a[1][3] == "Err"]
+        if not errs:
+            continue
+        for s2, t in b.switches():
+            if t[1][0] not in ("c", "m"):
+                continue
+            o, _ = trace(b, t[1])
+            fs = {f[1:] for k, x in o if k == "field" for f in x if isinstance(f, str) and f[1:] in cand}
+            if not fs:
+                continue
+            succs = [x for x in b.succ(s2)]
+            for e in errs:
+                via = [x for x in succs if e == x or e in b.reachable(x, avoid=[s2])]
+                if len(via) != 1 or not b.dominates(s2, e):
+                    continue
+                # the guarded error must be specific to mutations
+                res = variant_reachable(b, r"OperationType$", ["Query", "Mutation", "Subscription"], [e])
+                if res[e] == {"Mutation"}:
+                    gates |= fs
     return gates, sorted(cand)
+
+
+def sets_gate(F, fam, gates):
+    """blocks (body, bb) in the family that store a gate field or call a Request method that stores one"""
+    out = []
+    for x in fam:
+        for bb, s in x.all_stmts():
+            if any(isinstance(f, str) and f[1:] in gates for f in s[0][1:]):
+                out.append((x, bb))
+        for a in find_aggs(x, r"async_graphql::request::Request$"):
+            if set(a[1][4]) & gates:
+                out.append((x, a[0]))
+        for cc in x.calls():
+            t = F.get(cc.callee) if cc.callee else None
+            if t is not None and t.defp.startswith("async_graphql::request::") and any(isinstance(f, str) and f[1:] in gates for bb, s in t.all_stmts() for f in s[0][1:]):
+                out.append((x, cc.bb))
+    return out
 
 
 def run(F, R):
@@ -53,21 +92,27 @@ def run(F, R):
     core_sets = False
     pqs = F.one(r"async_graphql::http::parse_query_string$", kind="fn")
     if gates:
-        for a in find_aggs(pqs, r"async_graphql::request::Request$"):
-            if set(a[1][4]) & gates:
-                core_sets = True
+        setters = [bb for x, bb in sets_gate(F, [pqs], gates) if x is pqs]
+        oks = [a[0] for a in find_aggs(pqs, r"core::result::Result$") if a[1][3] == "Ok" and any("Request" in pqs.locals[o[1][0]] for o in a[1][5] if o[0] in ("c", "m"))]
+        core_sets = bool(setters) and bool(oks) and all(pqs.must_pass(setters, ok) for ok in oks)
+        R.check(core_sets, "R35.1", "parse_query_string:sets-gate-on-every-Ok", pqs.where(), "gate %s set on every path to Ok(request)" % sorted(gates),
+                "http::parse_query_string returns a Request without the mutation gate on some path")
     for crate, b, c in sites:
         gated = core_sets and c is not None
         if gates and not gated:
             fam = F.with_nested(F.get(b.owner) or b)
-            for x in fam:
-                for bb, s in x.all_stmts():
-                    if any(isinstance(f, str) and f[1:] in gates for f in s[0][1:]):
-                        gated = True
-                for cc in x.calls():
-                    t = F.get(cc.callee) if cc.callee else None
-                    if t is not None and t.defp.startswith("async_graphql::request::") and any(isinstance(f, str) and f[1:] in gates for bb, s in t.all_stmts() for f in s[0][1:]):
-                        gated = True
+            st = sets_gate(F, fam, gates)
+            if c is None:
+                # rocket: the conversion itself must set the gate on every path to its return
+                gated = bool(st) and all(x is not b or b.must_pass([bb for y, bb in st if y is b], e) for x, _ in st for e in b.exits())
+            else:
+                gated = bool(st)
         R.check(gated, "R35.1", "get-without-mutation-gate:" + crate, c.where() if c is not None else b.where(), "GET request marked with gate %s" % sorted(gates),
-                "%s builds a Request from an HTTP GET query string and hands it on with nothing that forbids mutations (the core has no mutation gate at all: "
-                "gates found = %s): `GET ?query=mutation{..}` executes the mutation" % (crate, sorted(gates) or "none"))
+                "%s builds a Request from an HTTP GET query string and hands it on with nothing that forbids mutations (mutation gates found in the core: %s): "
+                "`GET ?query=mutation{..}` executes the mutation" % (crate, sorted(gates) or "none"))
+    # the gate must be honoured by every executor entry: prepare_request is the single preparation path of static and dynamic schemas
+    if gates:
+        users = {c.body.defp.split("::{")[0] for c in F.callers_of(r"async_graphql::schema::prepare_request$")}
+        need = {"async_graphql::schema", "async_graphql::dynamic::schema"}
+        got = {u for u in need if any(x.startswith(u + "::") or x == u for x in users)}
+        R.check(got == need, "R35.1", "gate-checked-by-both-executors", "-", "prepare_request used by %s" % sorted(got), "executors bypassing prepare_request: %s" % sorted(need - got))
